@@ -204,3 +204,21 @@ Example C04_accepted_diff_instance :
   check_C04 (CDiff [4]%nat 1 0 1 1 false true [0;1;4;9]%Q [true;true;true;true] [0;2;4;6]%Q) = true.
 Proof. exact accepted_diff_instance. Qed.
 Print Assumptions C04_accepted_diff_instance.
+(* transfer of the exactness theorem to the observation: open direction, validity restriction off, the
+   recorded grid line through cell i samples a quadratic => the OBSERVED first derivative at that cell is the
+   exact derivative of the quadratic at the cell's position (any shape, axis, component, line length >= 3) *)
+Theorem C04_accepted_quadratic_exact : forall sh nvdim ax h vals valid obs i c0 c1 c2 x0,
+  check_C04 (CDiff sh nvdim ax 1 h false false vals valid obs) = true ->
+  inb (sh ++ [nvdim]) i = true -> (ax < length sh)%nat -> (3 <= nth ax sh 0)%nat ->
+  qc h <> 0%Qc ->
+  (forall j, (j < nth ax sh 0)%nat ->
+     nth j (line (sh ++ [nvdim]) (of_list (f0 QcOps) (sh ++ [nvdim]) (qcl vals)) ax i) 0%Qc
+     = quad QcOps c0 c1 c2 (x0 + fnat QcOps j * qc h)%Qc) ->
+  nth (ravel (sh ++ [nvdim]) i) (qcl obs) 0%Qc
+  = (c1 + (f2 QcOps * c2) * (x0 + fnat QcOps (nth ax i 0%nat) * qc h))%Qc.
+Proof. exact accepted_quadratic_exact. Qed.
+Print Assumptions C04_accepted_quadratic_exact.
+Example C04_accepted_quadratic_instance :
+  check_C04 (CDiff [4]%nat 1 0 1 1 false false [0;1;4;9]%Q [true;false;true;true] [0;2;4;6]%Q) = true.
+Proof. exact accepted_quadratic_instance. Qed.
+Print Assumptions C04_accepted_quadratic_instance.
